@@ -441,14 +441,17 @@ def _seeddiff_case(draw):
     g = draw(st.sampled_from(GENS))
     s1 = draw(SEED32)
     s2 = (s1 + 1 + draw(st.integers(0, 2**32 - 2))) % 2**32
-    return {"gen": g, "e": draw(_args(g)), "s1": s1, "s2": s2}
+    # the type the repeated seed arrives in: seeds drawn with numpy (rng.integers, array elements) are numpy integers;
+    # numpy's default_rng - which every generator hands its seed to - treats them exactly like the Python int
+    return {"gen": g, "e": draw(_args(g)), "s1": s1, "s2": s2, "seed_type": draw(st.sampled_from(["int", "int", "int64", "uint32", "uint64"]))}
 
 
 def check_seed_difference(case):
     g, e = case["gen"], case["e"]
     a = _call_or_exc(g, e, case["s1"])
     b = _call_or_exc(g, e, case["s2"])
-    a2 = _call_or_exc(g, e, case["s1"])
+    s1_again = {"int": int, "int64": np.int64, "uint32": np.uint32, "uint64": np.uint64}[case.get("seed_type", "int")](case["s1"])
+    a2 = _call_or_exc(g, e, s1_again)
     if _raised(a) and _raised(b) and _raised(a2):
         raise Inconclusive("generator raises for this calling form (decided by the validity sub-checks)")
     req(a == a2, f"{g}{canon(e)}: two calls with seed {case['s1']} give different objects", "seed:not-reproducible")
